@@ -33,6 +33,9 @@ def gen(rng, tier, n):
         for r in URI_REFS:
             ops.append({"op": "uri", "args": {"base": b, "ref": r}, "meta": {"kind": "uri"}})
     while len(ops) < n:
+        if rng.random() < 0.03:
+            ops.append({"op": "validate", "args": gen_refs.mixed_cycle(rng), "meta": {"kind": "universe", "nrefs": 2, "mixed": True}})
+            continue
         draft = "2020" if rng.random() < 0.75 else "7"
         root, docs, base, loader, insts, expect, meta = gen_refs.gen_universe(rng, draft, 3 if tier == "quick" else 4)
         meta["expect"] = expect
